@@ -373,6 +373,8 @@ class Gen:
         self.items_sha[f"{d.path}::{d.name}"] = hashlib.sha256(orig.encode()).hexdigest()
         sp = Splicer(src, it.start, it.end)
         attrs = strip_attrs(st, src, it.st_lo, it.st_hi, sp)
+        if d.opts.get("pub") is not None and not any(st[k].text == "pub" for k in range(it.st_lo, it.kw)):
+            sp.insert(st[it.kw].start, ADD("E13", "pub "))   # visibility widened (single-file crate)
         text = sp.render()
         self.extracted.append((f"{d.path}::{d.name}", orig, text))
         self.out.add(text)
@@ -601,6 +603,18 @@ class Gen:
                 sp.insert(st[lp.in_kw].end, ADD("E4", f" {itname}:"))
             sp.insert(st[lp.body_open].start, ADD("E4", f"\n/*@L {lab}*/{c.text.rstrip()}\n/*@E*/\n"))
         for c in cls:
+            if c.kind == "nested":
+                nit = S.nested_fn(it, c.args[0])
+                nfp = rs.parse_fn(st, nit)
+                lines = c.text.strip().splitlines()
+                rn = lines[0].strip().strip("()")
+                body_txt = "\n".join(lines[1:])
+                if nfp.ret is not None:
+                    a, b = st[nfp.ret[0]].start, st[nfp.ret[1] - 1].end
+                    sp.replace(a, b, REP("E3", src[a:b], f"({rn}: {src[a:b]})"))
+                lab = c.args[1] if len(c.args) > 1 else f"nested_{c.args[0]}"
+                labels.append(lab); info["tags"][lab] = c.args[2:]; info["kinds"][lab] = "closure"
+                sp.insert(st[nfp.body_open].start, ADD("E3", f"\n/*@L {lab}*/{body_txt}\n/*@E*/\n"))
             if c.kind == "prefix":
                 txt = c.text
                 sp.insert(st[fp.body_open].end, ADD("E10", "\n" + txt))
@@ -616,7 +630,9 @@ class Gen:
                 if nth < 1 or nth > len(hits):
                     raise AnchorLost(f"{fid}: insert_before anchor {anchor!r} #{nth}: {len(hits)} statement-start hits")
                 sp.insert(st[hits[nth - 1]].start, ADD("E10", c.text.rstrip() + "\n"))
-        if self.mode == "vacuity":
+        assumed = d.opts.get("assume") is not None
+        info["assumed"] = assumed
+        if self.mode == "vacuity" and not assumed:
             sp.insert(st[fp.body_open].end, ADD("E10", " proof { assert(false); } "))
         # contract insertion
         ctext = "".join(("/*@L %s*/%s/*@E*/" % (lab, t)) if lab else t for t, lab in pieces)
@@ -626,6 +642,8 @@ class Gen:
         self.extracted.append((key, orig, text))
         # attributes requested by the spec (e.g. #[verifier::rlimit(50)])
         pre = "".join(c.text for c in cls if c.kind == "attr")
+        if assumed:
+            pre += "#[verifier::external_body] /* ASSUMED LEAF: contract not verified by Verus */\n"
         if imp is not None:
             hdr = src[st[imp.kw].start:st[imp.kw].end]
             k = imp.kw
